@@ -159,6 +159,13 @@ def gen_tree(tier, seed):
         for sn, sb in [s for s in seeds if s[0] in ("f64", "r16")]:
             for pth in itertools.product(BOUNDARY, repeat=3):
                 add(sn, sb, "mainnet", pth)
+    # SLIP-132 version bytes must survive every derivation step: the 10 (private, public) version pairs,
+    # from the master and below one hardened step
+    sn, sb = seeds[0]
+    for letter, cls, _pub, _prv in R.SLIP132:
+        net = "mainnet" if cls == "main" else "testnet"
+        for parent in ([], [HARD + 48]):
+            cases.append({"sn": sn, "seed": sb.hex(), "net": net, "parent": parent, "children": BOUNDARY, "slip132": letter})
     return cases
 
 
@@ -169,12 +176,16 @@ def run_tree(case):
     seed, net, parent = bytes.fromhex(case["seed"]), case["net"], case["parent"]
     vc = {"engine": "tree", "case": case}
     vprv, vpub = R.default_versions(net)
+    kw = {}
+    if case.get("slip132"):
+        vprv, vpub = R.version_bytes(case["slip132"] + "prv"), R.version_bytes(case["slip132"] + "pub")
+        kw = {"priv_version": vprv, "pub_version": vpub}
     rroot = R.master(seed)
     rpar = R.derive_priv(rroot, parent) if rroot else None
     if rpar is None:
         res.skip("reference: invalid key on the way (probability 2^-127)")
         return res
-    root = attempt(HDPrivateKey.from_seed, seed, network=net)
+    root = attempt(HDPrivateKey.from_seed, seed, network=net, **kw)
     if not parent:
         if not check(res, f"C08/tree/master/len{len(seed)}-{net}", vc, obs_priv(root), ref_priv(rroot, vprv, vpub), "from_seed differs from BIP32 master key generation", "master==ref", ("master", case["sn"], net)):
             return res
